@@ -69,14 +69,26 @@ func (r TypeInfoExpr) String() string {
 	return r.Type.String()
 }
 
+// addSourceImports imports the packages a source type expression mentions under the names the source uses.
+// It reports false when one of those names is already taken by another package in the generated file:
+// the source text cannot be copied then, and the type has to be printed with the generated file's own aliases.
+func addSourceImports(w genfp.ImportSet, iset []genfp.ImportPackage) bool {
+	ok := true
+	for _, v := range iset {
+		if !w.AddImport(v) && w.GetImportedName(v) != v.Alias() {
+			ok = false
+		}
+	}
+	return ok
+}
+
 func (r TypeInfoExpr) TypeName(w genfp.ImportSet, wp genfp.WorkingPackage) string {
 
 	if expr, ok := r.Expr.Unapply(); ok {
 		_, iset := wp.EvalTypeExpr(expr)
-		for _, v := range iset {
-			w.AddImport(v)
+		if addSourceImports(w, iset) {
+			return types.ExprString(expr)
 		}
-		return types.ExprString(expr)
 	}
 
 	return w.TypeName(wp, r.Type.Type)
@@ -965,10 +977,9 @@ func (r StructField) TypeName(w genfp.ImportSet, wp genfp.WorkingPackage) string
 
 	if expr, ok := wp.FindNode(r.Pos).(*ast.Field); ok {
 		_, iset := wp.EvalTypeExpr(expr.Type)
-		for _, v := range iset {
-			w.AddImport(v)
+		if addSourceImports(w, iset) {
+			return types.ExprString(expr.Type)
 		}
-		return types.ExprString(expr.Type)
 	}
 
 	return w.TypeName(wp, r.FieldType.Type)
